@@ -230,8 +230,15 @@ def r_ptb(repo, rep):
     rep.check(inv_ok, 'R20.5', wr, '_parse_ptb:unescape', 'the reader applies the inverse of the writer\'s bracket escaping (%s)' % detail,
               'the reader does not invert the writer\'s escaping: %s' % detail)
     rc_ = rm.get('_parse_ptb.rec')
-    t = src(rc_)
-    rep.check("item[0] == '('" in t and 'Category.parse(item[1:])' in t, 'R20.6', wr, '_parse_ptb:open', 'an item starting with "(" is a category after the bracket',
+    opened = False
+    for st, o in SymExec(rc_, unroll=1).run():
+        for c, pol, _ in st.conds:
+            if pol and c[0] == 'cmp' and c[1] == '==' and c[3] == C('(') and c[2][0] == 'sub' and c[2][2] == C(0):
+                item_t = c[2][1]
+                want = ('call', A(N('Category'), 'parse'), (('sub', item_t, ('slice', C(1), None, None)),), ())
+                if any(e[0] == 'call' and e[1][1] == A(N('stack'), 'append') and e[1][2] == (want,) for e in st.events):
+                    opened = True
+    rep.check(opened, 'R20.6', wr, '_parse_ptb:open', 'an item starting with "(" pushes the category parsed from the text after the bracket',
               'opening items are not parsed as "(" + category')
     # completeness
     tr = [n for n in pp.body if isinstance(n, ast.Try)]
@@ -242,10 +249,23 @@ def r_ptb(repo, rep):
         okc = any('len(stack)==1' in a and 'isinstance(stack[0],Tree)' in a for a in asserts) and bool(handlers)
     rep.check(okc, 'R20.4', wr, '_parse_ptb:complete', 'an incomplete line is rejected: exactly one Tree must remain, else RuntimeError',
               'the reader has no check that exactly one tree remains (a partial tree could be returned)')
-    # children order: popped in reverse, unpacked as right, left
-    okord = 'right, left = children' in t or 'right, left = children' in src(red)
-    rep.check(okord, 'R20.6', wr, '_parse_ptb:child-order', 'children popped from the stack are unpacked as (right, left)',
-              'children are not unpacked in popped (reverse) order')
+    # children order: trees are popped right-to-left, so the first popped is the right child
+    okord = False
+    detail = ''
+    tm = repo.module('depccg/tree.py')
+    for st, o in SymExec(red, unroll=2).run():
+        mk = [e[1] for e in st.events if e[0] == 'call' and e[1][1] == A(N('Tree'), 'make_binary')]
+        if mk:
+            try:
+                b = bind_args(mk[0], tm.get('Tree.make_binary'))
+            except AnalysisError:
+                continue
+            l_, r_ = b['left'], b['right']
+            detail = 'left=%s right=%s' % (show(l_)[:40], show(r_)[:40])
+            if l_[0] == 'unpack' and r_[0] == 'unpack' and l_[1] == r_[1] and (l_[2], r_[2]) == (1, 0):
+                okord = True
+    rep.check(okord, 'R20.6', wr, '_parse_ptb:child-order', 'children popped from the stack (right first) are attached as left = second popped, right = first popped',
+              'children are attached in popped order without reversal: %s' % detail)
 
 
 def r_ja(repo, rep):
